@@ -160,6 +160,45 @@ def candidates(case):
             yield dict(case, **{key: case[key][:1]})
 
 
+def spec_well_formed(spec):
+    """references inside a spec resolve: node types / operators exist, edge endpoints, edge templates, per-edge values
+    and the extra sources of edge operators name existing variables (a reduction step must not leave the domain)"""
+    try:
+        ops = spec["ops"]
+        for nt in spec["ntypes"].values():
+            if any(o not in ops for o in nt["ops"]):
+                return False
+        var_paths = set()
+        for p, nt in spec["nodes"]:
+            if nt not in spec["ntypes"]:
+                return False
+            for o in spec["ntypes"][nt]["ops"]:
+                for v in ops[o]["vars"]:
+                    var_paths.add(f"{p}/{o}/{v[0]}")
+        for e in spec.get("edges", []):
+            pre = (e.get("scope") + "/") if e.get("scope") else ""
+            if pre + e["s"] not in var_paths or pre + e["t"] not in var_paths:
+                return False
+            if e.get("et"):
+                et = (spec.get("etypes") or {}).get(e["et"])
+                if not et or any(o not in ops for o in et["ops"]):
+                    return False
+                evars = {f"{o}/{v[0]}": v[1] for o in et["ops"] for v in ops[o]["vars"]}
+                if any(k not in evars for k in (e.get("ev") or {})):
+                    return False
+                for k, path in (e.get("xs") or {}).items():
+                    if evars.get(k) != "input" or pre + path not in var_paths:
+                        return False
+                n_in = sum(1 for k, kd in evars.items() if kd == "input")
+                if n_in != 1 + len(e.get("xs") or {}):
+                    return False
+            elif e.get("ev") or e.get("xs"):
+                return False
+    except Exception:
+        return False
+    return True
+
+
 def reduce_case(arm, case, bucket, ctx=None, max_rounds=30, log=None):
     ctx = ctx or Ctx()
 
@@ -167,6 +206,8 @@ def reduce_case(arm, case, bucket, ctx=None, max_rounds=30, log=None):
 
     def fails(c):
         try:
+            if isinstance(c.get("spec"), dict) and "ops" in c["spec"] and "nodes" in c["spec"] and not spec_well_formed(c["spec"]):
+                return False
             if valid is not None and not valid(c):
                 return False
             res = arm.run(c, ctx)
